@@ -156,7 +156,41 @@ def load(transforms=()):
     for sub in ("der", "util", "numbertheory", "ellipticcurve", "ecdsa", "curves",
                 "keys", "rfc6979", "ecdh", "_compat", "_rwlock"):
         importlib.import_module(PKG + "." + sub)
+    if _SNAP is None:
+        from . import core
+        _snapshot()
+        core.PATH_RESET_HOOKS.append(_restore)
     return pkg
+
+
+_SNAP = None
+
+
+def _snapshot():
+    """module-level mutable containers of the instrumented package (a mutated tree may
+    keep caches there): restored before every path so that paths are independent and
+    history-dependence only shows through explicit multi-call harnesses"""
+    global _SNAP
+    import copy
+    _SNAP = []
+    for name, mod in list(sys.modules.items()):
+        if name == PKG or name.startswith(PKG + "."):
+            for k, v in list(vars(mod).items()):
+                if isinstance(v, (dict, list, set)) and not k.startswith("__"):
+                    _SNAP.append((mod, k, v, copy.copy(v)))
+
+
+def _restore():
+    if _SNAP is None:
+        return
+    for mod, k, obj, saved in _SNAP:
+        if isinstance(obj, dict):
+            obj.clear(); obj.update(saved)
+        elif isinstance(obj, list):
+            obj[:] = saved
+        else:
+            obj.clear(); obj.update(saved)
+        setattr(mod, k, obj)
 
 
 def load_native(alias="ecdsa_native"):
